@@ -669,9 +669,16 @@ func sel(decision bool, ops []Op) int {
 		}
 	}
 	t := S.cur
-	park(t, ops)
-	Wait(decision, "select", func() bool { return anyReadyFor(t, ops) })
-	t.waitOps = nil
+	// phase 1: the decision point BEFORE the select executes. The channel operands are already evaluated (a
+	// channel obtained from a WaitX() call may be stale by the time the thread really blocks), but the thread is
+	// not yet queued on any channel: a sender that runs now finds no blocked receiver here.
+	Wait(decision, "select", nil)
+	// phase 2: the select executes; if nothing is ready the thread blocks and is a receiver for hand-offs
+	if !anyReadyFor(t, ops) {
+		park(t, ops)
+		Wait(false, "select", func() bool { return anyReadyFor(t, ops) })
+		t.waitOps = nil
+	}
 	return pickFor(t, ops, "select-case")
 }
 
@@ -705,9 +712,12 @@ func SelectDefaultQ(ops ...Op) int { return SelectDefault(ops...) }
 func recvWait(decision bool, what string, ch any) {
 	op := R(ch)
 	t := S.cur
-	park(t, []Op{op})
-	Wait(decision, what, func() bool { return readyFor(t, op) })
-	t.waitOps = nil
+	Wait(decision, what, nil) // decision point before the receive executes (not yet queued on the channel)
+	if !readyFor(t, op) {
+		park(t, []Op{op})
+		Wait(false, what, func() bool { return readyFor(t, op) })
+		t.waitOps = nil
+	}
 	commit(t, op)
 }
 
